@@ -469,6 +469,41 @@ pub fn run(tier: &str) -> i32 {
             }
         }
     }
+    // ---- an inner definition shadows an outer one from its own scope inwards, not before: the guard of the block (or rule)
+    //      that holds the inner definition still sees the outer variable; renaming the inner variable changes nothing
+    {
+        let shapes: Vec<(&str, &str)> = vec![
+            ("when-block", "let m = OUTER\nrule r0 {\n  when %m == 1 {\n    let INNER_NAME = INNER\n    BODY\n  }\n}\n"),
+            ("when-block-in-block", "let m = OUTER\nrule r0 {\n  this {\n    when %m == 1 {\n      let INNER_NAME = INNER\n      BODY\n    }\n  }\n}\n"),
+            ("rule-when", "let m = OUTER\nrule r0 when %m == 1 {\n  let INNER_NAME = INNER\n  BODY\n}\n"),
+            ("rule-level-outer", "rule r0 {\n  let m = OUTER\n  when %m == 1 {\n    let INNER_NAME = INNER\n    BODY\n  }\n}\n"),
+            ("type-block-when", "let m = OUTER\nrule r0 {\n  T when %m == 1 {\n    let INNER_NAME = INNER\n    BODY\n  }\n}\n"),
+        ];
+        let outers = ["a", "1", "b", "[1]"];
+        let inners = ["b", "2", "a", "\"x\""];
+        let bodies = ["%INNER_NAME == 1", "%INNER_NAME exists", "a exists", "%INNER_NAME == 2\n    b exists"];
+        let mut docs: Vec<String> = djs.iter().step_by(3).cloned().collect();
+        docs.push("{\"Resources\":{\"r\":{\"Type\":\"T\",\"a\":1,\"b\":2}},\"a\":1,\"b\":2}".to_string());
+        docs.push("{\"Resources\":{\"r\":{\"Type\":\"T\",\"a\":2,\"b\":1}},\"a\":1,\"b\":1}".to_string());
+        for (label, shape) in &shapes {
+            for o in outers {
+                for inn in inners {
+                    for body in bodies {
+                        let mk = |name: &str| shape.replace("BODY", body).replace("INNER_NAME", name).replace("OUTER", o).replace("INNER", inn);
+                        let (ta, tb) = (mk("m"), mk("m2"));
+                        for dj in &docs {
+                            let (oa, ob) = (lib_run(&ta, dj), lib_run(&tb, dj));
+                            acc.traces += 2;
+                            extra_states += 2;
+                            if oa.short() != ob.short() && !(matches!(oa, Obs::Err(_)) && matches!(ob, Obs::Err(_))) {
+                                acc.violate(&format!("inner-definition-seen-by-its-own-guard:{}", label), format!("naming the inner variable like the outer one changes the verdict: {} vs {} | `{}` data {}", oa.short(), ob.short(), ta.trim(), dj), json!({"kind":"lib2","rules":ta,"rules2":tb,"data":dj,"expected":ob.short(),"observed":oa.short()}));
+                            }
+                        }
+                    }
+                }
+            }
+        }
+    }
     rep.states = acc.traces;
     rep.transitions = acc.nontrivial + b.transitions + extra_states;
     if res.capped {
